@@ -262,3 +262,126 @@ func c11RealBinary(r *ev.Result, base string) {
 	r.Traces++
 	r.Set("real_binary_log_records", len(recs))
 }
+
+// c19RealBinary: one muting session of the real program on a pty in real
+// time, Ctrl+O typed as a key.  Only bounds that hold however loaded the
+// machine is are judged: muted output never appears, status lines do, the
+// un-muting is announced no earlier than the pause interval after a chunk the
+// program had certainly received, and it is announced at all (within 30 s).
+func c19RealBinary(r *ev.Result, base string) {
+	for _, extra := range [][]string{nil, {"-no-timestamps"}} {
+		cls := "default"
+		if nil != extra {
+			cls = strings.TrimPrefix(extra[0], "-")
+		}
+		type finding struct{ sig, what string }
+		session := func() (fs []finding) {
+			v := func(sig, what string) { fs = append(fs, finding{sig, what}) }
+			dir, _ := os.MkdirTemp(base, "mute-")
+			defer os.RemoveAll(dir)
+			args := append([]string{"-listen-address", "127.0.0.1:0", "-tls-certificate-cache", filepath.Join(dir, "c.txtar")}, extra...)
+			p, addr, err := startReal(dir, args...)
+			if nil != err {
+				ev.Broken("%s", err)
+			}
+			defer p.Close()
+			waitFrom := func(re string, from int) int { return p.WaitFor(regexp.MustCompile(re), from, 30*time.Second) }
+			ci, _ := hworld.DialAddr(addr, "")
+			ci.Send(hworld.Get("/i/mutek", addr))
+			co, _ := hworld.DialAddr(addr, "")
+			co.Send("POST /o/mutek HTTP/1.1\r\nHost: x\r\nTransfer-Encoding: chunked\r\n\r\n")
+			defer ci.Close()
+			defer co.Close()
+			if waitFrom(`Shell is ready`, 0) < 0 {
+				v("session", "no ready notice: "+trunc300(p.Output()))
+				return
+			}
+			co.Send(chunk("BEFORE-MUTE visible\n"))
+			if waitFrom(`BEFORE-MUTE visible`, 0) < 0 {
+				v("output-suppressed", "shell output is not displayed although Ctrl+O was never pressed")
+				return
+			}
+			p.Send("\x0f")
+			if waitFrom(`Muting until`, 0) < 0 {
+				v("ctrl-o-not-announced", "Ctrl+O typed on the terminal, no 'Muting until ...' announcement: "+trunc300(p.Output()))
+				return
+			}
+			mark := len(p.Output())
+			/* A flood with gaps of half a second, for three seconds; a
+			refused connection in the middle produces a status line. */
+			var sent []time.Time
+			for i := 0; i < 6; i++ {
+				sent = append(sent, time.Now())
+				co.Send(chunk(fmt.Sprintf("MUTED-CHUNK-%d\n", i)))
+				if 3 == i {
+					cr, _ := hworld.DialAddr(addr, "")
+					cr.Send("POST /o/someone-else HTTP/1.1\r\nHost: x\r\nTransfer-Encoding: chunked\r\n\r\n0\r\n\r\n")
+					if waitFrom(`Rejected [a-z ]*output connection`, mark) < 0 {
+						v("status-line-lost", "a refusal notice was not displayed while muted")
+					}
+					cr.Close()
+				}
+				time.Sleep(500 * time.Millisecond)
+			}
+			/* p.WaitFor polls: the time of observation is after the time of
+			display. */
+			if waitFrom(`Unmuting`, mark) < 0 {
+				v("unmute-not-announced", "no 'Unmuting' within 30 s of the last shell output: "+trunc300(p.Output()[mark:]))
+				return
+			}
+			seen := time.Now()
+			/* Muted chunks are not acknowledged, so which chunk the program
+			had last seen when it decided is not known exactly; the
+			last-but-one had been on its socket for a second by then. */
+			if ref := sent[len(sent)-2]; seen.Sub(ref) < c19Pause {
+				v("unmuted-too-early", fmt.Sprintf("'Unmuting' was on the terminal %v after the last-but-one chunk was sent, i.e. less than the pause interval after a chunk the program had received; terminal since Ctrl+O: %q", seen.Sub(ref), trunc300(p.Output()[mark:])))
+				if d := os.Getenv("VERIF_C19_DEBUG"); "" != d {
+					os.WriteFile(d, []byte(fmt.Sprintf("%q\nsent %v\nseen %v\n", p.Output(), sent, seen)), 0o644)
+				}
+			}
+			if out := p.Output()[mark:]; strings.Contains(out, "MUTED-CHUNK-") {
+				/* Only chunks sent before the announcement count. */
+				if i := strings.Index(out, "Unmuting"); i < 0 || strings.Contains(out[:i], "MUTED-CHUNK-") {
+					v("muted-output-shown", "shell output sent while muted was displayed: "+trunc300(out))
+				}
+			}
+			co.Send(chunk("AFTER-MUTE visible\n"))
+			if waitFrom(`AFTER-MUTE visible`, mark) < 0 {
+				v("output-suppressed", "shell output sent after 'Unmuting' is not displayed")
+			}
+			if st := stopReal(p); 0 != st {
+				v("exit-status", fmt.Sprintf("exit status %d", st))
+			}
+			return fs
+		}
+		fs := session()
+		r.Add(1)
+		r.AddDistinct(1)
+		r.Traces++
+		/* The one judgement that involves the wall clock is only believed
+		if two more sessions show it too. */
+		early := func(fs []finding) bool {
+			for _, f := range fs {
+				if "unmuted-too-early" == f.sig {
+					return true
+				}
+			}
+			return false
+		}
+		confirmed := true
+		if early(fs) {
+			for k := 0; k < 2 && confirmed; k++ {
+				confirmed = early(session())
+				r.Traces++
+			}
+		}
+		for _, f := range fs {
+			if "unmuted-too-early" == f.sig && !confirmed {
+				r.Inc("real_binary_early_unmute_not_reproduced", 1)
+				continue
+			}
+			r.Violate(ev.Violation{Signature: "real-binary/" + f.sig + "/" + cls, What: f.what, Kind: "c19real", Replay: map[string]string{"scenario": "real binary, Ctrl+O typed on the pty, flags " + strings.Join(extra, " ")}})
+		}
+	}
+	r.Set("real_binary_mute_sessions", 2)
+}
